@@ -116,6 +116,12 @@ func Canon(v Val) any {
 			return map[string]any{"Title": "Ms", "Extra": true, "Num": int64(9)}
 		}
 		return map[string]any{"Num": "n"}
+	case "intmap":
+		out := map[string]any{}
+		for i := range v.K {
+			out[fmt.Sprint(i+1)] = v.V[i].S
+		}
+		return out
 	case "deep":
 		var cur any = map[string]any{"leaf": v.I}
 		for i := int64(0); i < v.I; i++ {
